@@ -1,3 +1,141 @@
+/-
+  Driver/C16.lean — checks histories recorded from the REAL shared tables (RIB + FIB/strategy
+  table, several goroutines, race detector on) for linearizability against the sequential
+  specification NdnVerif/C16/Seq.lean.
+
+  protocol (harness/c16):
+    new <tree|hash:m> <default strategy>                => ok
+    <op>                                                => <result>      sequential (setup / final observation)
+    par <t0 ops> | <t1 ops> | …                         => <id>,<inv>,<ret>,<result> …
+  op syntax (fields separated by ','; ops of one goroutine by ';'):
+    reg,<name>,<face>,<origin>,<cost>,<flags>  unreg,<name>,<face>,<origin>  cleanup,<face>
+    sets,<name>,<strategy>  unsets,<name>  nh,<name>  st,<name>  lf  lr  ls
+  id = 100*goroutine + position.  inv/ret are ticks of one global atomic counter.
+-/
 import NdnVerif.Driver.Common
--- stub: replaced by the C16 model driver
-def main : IO Unit := IO.println "DONE lines=0 histories=0 diffs=0 specs=0 skipped=0"
+import NdnVerif.C16.Seq
+open Ndn Ndn.Driver Ndn.C05 Ndn.C06 Ndn.C16
+
+structure D16 where
+  cands : List SSt := []      -- sequential states the tables may be in (one, except after a `par`)
+
+def parseOp (s : String) : Option SOp :=
+  match s.splitOn "," with
+  | ["reg", n, f, o, c, fl] => do
+    let n ← Name.ofText n; let f ← f.toNat?; let o ← o.toNat?; let c ← c.toNat?; let fl ← fl.toNat?
+    pure (.reg n ⟨f, o, c, fl⟩)
+  | ["unreg", n, f, o] => do
+    let n ← Name.ofText n; let f ← f.toNat?; let o ← o.toNat?
+    pure (.unreg n f o)
+  | ["cleanup", f] => do let f ← f.toNat?; pure (.cleanup f)
+  | ["sets", n, x] => do let n ← Name.ofText n; let x ← Name.ofText x; pure (.sets n x)
+  | ["unsets", n] => do let n ← Name.ofText n; pure (.unsets n)
+  | ["nh", n] => do let n ← Name.ofText n; pure (.nh n)
+  | ["st", n] => do let n ← Name.ofText n; pure (.st n)
+  | ["lf"] => some .lf
+  | ["lr"] => some .lr
+  | ["ls"] => some .ls
+  | _ => none
+
+def isWrite : SOp → Bool
+  | .reg .. | .unreg .. | .cleanup .. | .sets .. | .unsets .. => true
+  | _ => false
+
+def parseThreads (spec : String) : Option (List (Nat × SOp)) :=
+  let threads := (spec.splitOn " | ")
+  let rec goT (ts : List String) (ti : Nat) (acc : List (Nat × SOp)) : Option (List (Nat × SOp)) :=
+    match ts with
+    | [] => some acc.reverse
+    | t :: rest =>
+      let ops := (t.splitOn ";").filter (· != "")
+      let rec goO (os : List String) (k : Nat) (acc : List (Nat × SOp)) : Option (List (Nat × SOp)) :=
+        match os with
+        | [] => some acc
+        | o :: more => match parseOp o with
+          | some op => goO more (k + 1) ((100 * ti + k, op) :: acc)
+          | none => none
+      match goO ops 0 acc with
+      | some acc' => goT rest (ti + 1) acc'
+      | none => none
+  goT threads 0 []
+
+def parseResults (got : String) : Option (List (Nat × Nat × Nat × String)) :=
+  ((got.splitOn " ").filter (· != "")).mapM fun e =>
+    match e.splitOn "," with
+    | id :: inv :: ret :: res => do
+      let id ← id.toNat?; let inv ← inv.toNat?; let ret ← ret.toNat?
+      pure (id, inv, ret, ",".intercalate res)
+    | _ => none
+
+def crashSpec (got : String) : List SpecFail :=
+  if isCrash got then
+    let key := if (got.splitOn "DATA RACE").length > 1 then "data-race"
+               else if (got.splitOn "concurrent map").length > 1 then "concurrent-map"
+               else if (got.splitOn "TIMEOUT").length > 1 then "deadlock-or-timeout" else "crash"
+    [⟨"no-race-no-crash", key, s!"the shared tables crashed / raced / hung under concurrent use: {got}"⟩]
+  else []
+
+def step16 (d : D16) (op : String) (got : String) : StepResult D16 :=
+  if op.startsWith "new " then
+    match op.splitOn " " with
+    | ["new", _kind, dflt] =>
+      match Name.ofText dflt with
+      | some x => { st := { cands := [SSt.init x] }, expected := some "ok" }
+      | none => { st := d, expected := some "bad-op" }
+    | _ => { st := d, expected := some "bad-op" }
+  else if op.startsWith "par " then
+    let spec := (op.drop 4).toString
+    match parseThreads spec with
+    | none => { st := d, expected := some "bad-op" }
+    | some ops =>
+      if isCrash got then { st := d, spec := crashSpec got, cov := ["par-crash"] }
+      else match parseResults got with
+      | none => { st := d, expected := some "unparsable-results" }
+      | some rs =>
+        let hops : List HOp := ops.filterMap fun (id, o) =>
+          match rs.find? (·.1 == id) with
+          | some (_, inv, ret, res) => some ⟨id, inv, ret, o, res⟩
+          | none => none
+        if hops.length != ops.length then { st := d, expected := some "missing-results" }
+        else
+          let fuel := hops.length + 2
+          let finals := d.cands.foldl (fun acc s =>
+            let r := search fuel s hops [] {}
+            r.finals.foldl (fun acc f =>
+              -- re-validate every witness with the simple checker before trusting it
+              match checkWitness s hops f.2.2 with
+              | some _ => if acc.any (fun (x : String × SSt) => x.1 == f.1) then acc else (f.1, f.2.1) :: acc
+              | none => acc) acc) []
+          let overlapW := hops.any fun a => hops.any fun b =>
+            a.id / 100 != b.id / 100 && isWrite a.op && isWrite b.op && a.inv < b.ret && b.inv < a.ret
+          let overlapRW := hops.any fun a => hops.any fun b =>
+            a.id / 100 != b.id / 100 && isWrite a.op && !isWrite b.op && a.inv < b.ret && b.inv < a.ret
+          if finals.isEmpty then
+            { st := { cands := [] }, cov := ["par-not-linearizable"], nontrivial := true,
+              spec := [⟨"linearizable", "par", s!"no sequential order of the operations explains the results: {got}"⟩] }
+          else
+            { st := { cands := finals.map (·.2) },
+              cov := ["par-linearizable"] ++ (if overlapW then ["overlapping-writers"] else []) ++
+                     (if overlapRW then ["lookup-overlaps-writer"] else []) ++
+                     (if finals.length > 1 then ["several-final-states"] else []),
+              nontrivial := overlapW || overlapRW }
+  else
+    match parseOp op with
+    | none => { st := d, expected := some "bad-op" }
+    | some o =>
+      if isCrash got then { st := d, spec := crashSpec got }
+      else
+        let results := d.cands.map fun s => s.apply o
+        let ok := results.filter fun r => r.2 == got
+        match results with
+        | [] => { st := d, cov := ["after-failed-par"] }   -- the block before was not linearizable: nothing to compare with
+        | [r] => { st := { cands := [r.1] }, expected := some r.2, cov := ["seq-op"],
+                   spec := if r.2 != got && !isWrite o then
+                     [⟨"sequential-result", "seq", s!"{op}: tables return {got}, the registered routes prescribe {r.2}"⟩] else [] }
+        | _ =>
+          if ok.isEmpty then
+            { st := d, cov := ["final-state-mismatch"],
+              spec := [⟨"final-state", "after-par", s!"{op} returned {got}: not the result in any state reachable by a sequential order of the concurrent operations"⟩] }
+          else { st := { cands := ok.map (·.1) }, cov := ["final-state-filter"] }
+
+def main : IO Unit := Ndn.Driver.run ({} : D16) step16
